@@ -188,8 +188,20 @@ def http(case, res):
                     else:
                         sent = False
                     conns.append((c, name, cls, data, sent))
+                fault = rng.random() < 0.45
+                if fault:
+                    # the set-up of one of the accepted sockets fails: that exchange ends without an answer (closed), the others are
+                    # judged as usual, nothing of the failed one stays behind
+                    import errno as E
+                    S.sim.inject(rng.choice(["fcntl", "setsockopt", "getsockname", "epoll_ctl", "setsockopt"]), rng.randrange(1, 2 * k), rng.choice([E.ENOBUFS, E.ENOMEM, E.EINVAL]))
+                    S.inject_active = True
+                    S.stats["burst_setup_faults"] += 1
                 S.settle()
-                S.sig("burst", min(k, 12), rnd)
+                if fault:
+                    for call in ("fcntl", "setsockopt", "getsockname", "epoll_ctl"):
+                        S.sim.inject(call, 0, 0)
+                unanswered_ok = 1 if fault else 0
+                S.sig("burst", min(k, 12), rnd, fault)
                 S.stats["burst_connections"] += k
                 for c, name, cls, data, sent in conns:
                     if not sent:
@@ -201,6 +213,9 @@ def http(case, res):
                     if not c.accepted:
                         S.v("conn/pending-connection-not-accepted", "%s (%s) of a burst of %d" % (c.name, name, k))
                         break
+                    if cls == "valid" and status is None and c.closed and unanswered_ok:
+                        unanswered_ok -= 1          # the one whose set-up failed
+                        continue
                     if cls == "valid" and status != 101:
                         S.v("http/valid-upgrade-not-answered-101:" + name, "in a burst of %d: status %r closed %r" % (k, status, c.closed))
                     if cls == "invalid" and status == 101:
